@@ -778,10 +778,10 @@ func parseScheduledStopTimes(csv *csv.File, stops []Stop, trips []ScheduledTrip)
 			continue
 		}
 		if !departureOk {
-			arrival = departure
+			departure = arrival
 		}
 		if !arrivalOk {
-			departure = arrival
+			arrival = departure
 		}
 		stopSequence, err := strconv.Atoi(stopSequenceKey.Read())
 		if err != nil {
